@@ -44,6 +44,7 @@ def run(ctx):
         "the statement that directly follows a dangling `x.` lies, for the parser, inside the dot expression's empty operand (its range reaches the end of the token at which the operand search stopped): no statement-start position is queried there",
         "one manager per queried file (see C10)",
     ]
+    ctx.extract(["E8_ScopeConsts"])      # native keys, intrinsics, completion filters: the model consumes them
     if ctx.replay:
         return replay(ctx)
     ctx.prove("GoldModel.Props.C11")
